@@ -7,7 +7,7 @@ C09, the plumbing between `apko lock`, the lock file and `apko build --lockfile`
 * `expandPkg_option_free`: under the cache invariant `StOK` (every disk entry / memo entry was made from the file that
   is at its URL now) the expansion of a package does not depend on the package cache, on the memo, on
   ignore-signatures or on the transport — it is `fetchVerify` of the file;
-* `lockFile_option_free`, `lockFile_sound`: hence the lock file is the same under every option, and every entry is the
+* `lockFile_option_free_partial`, `lockFile_sound`: hence the lock file is the same under every option, and every entry is the
   `specEntry` of the file at its URL (ranges tile the file in member order, checksums are the members');
 * `buildFromLock_option_free`, `buildFromLock_fails_or_exact`, `buildFromLock_fails_of_broken`: a build from a lock
   fails, or its installed database lists exactly the lock's entries of that architecture, in order, under the locked
@@ -156,10 +156,10 @@ theorem lockArch_option_free (o o' : Opts) (st st' : St) (repo : Repo) (h : StOK
   | cons p rest ih =>
     simp only [lockArch, expandPkg_option_free o st repo h p, expandPkg_option_free o' st' repo h' p, ih]
 
-/-- T `lockFile_option_free`: the lock file of a resolution against a repository is the same whatever the package
+/-- T `lockFile_option_free_partial`: the lock file of a resolution against a repository is the same whatever the package
 cache mode, the state of the cache (cold, warm in this process, warm from another process), ignore-signatures and the
 transport are — it equals the lock file of a run without package cache. -/
-theorem lockFile_option_free (o : Opts) (st : St) (repo : Repo) (h : StOK st repo) (archs : List (List PkgRef)) :
+theorem lockFile_option_free_partial (o : Opts) (st : St) (repo : Repo) (h : StOK st repo) (archs : List (List PkgRef)) :
     lockFile o st repo archs = lockFile ⟨.off, false, false⟩ St.empty repo archs := by
   induction archs with
   | nil => rfl
@@ -402,5 +402,48 @@ theorem stWarm_ok : StOK stWarm repoA := by
 data `bytes=394-711` -/
 example : (lockFile ⟨.on, true, false⟩ stWarm repoA [[pA]]).map (·.map fun e => (e.sigRange, e.ctlRange, e.datRange)) =
     some [("bytes=0-140".toList, "bytes=141-393".toList, "bytes=394-711".toList)] := by decide
+
+/-! ### F09k: without the cache invariant the lock depends on the state of the package cache -/
+
+/-- the full statement: whatever state a run finds, its lock is the lock of a run without package cache -/
+def LockOptionFree : Prop :=
+  ∀ (o : Opts) (st : St) (repo : Repo) (archs : List (List PkgRef)),
+    lockFile o st repo archs = lockFile ⟨.off, false, false⟩ St.empty repo archs
+
+/-- the package of `sA` published again under the same URL, same control and data sections, no signature section -/
+def sAunsigned : Sections := { sA with sig := 0, sigSum := [] }
+def repoB : Repo := fun u => if u = pA.url then some sAunsigned else none
+/-- the cache another process filled while the package was still signed -/
+def stStale : St := ⟨[(pA.url, diskEntryOf sA)], []⟩
+
+/-- the run with the package cache records the signature section the cache holds (`bytes=0-140`, control from 141), the
+run without one describes the file that is there (no signature entry, control from 0); the driver's class predicate
+`staleSignature` names the situation -/
+theorem F09k_witness :
+    (lockFile ⟨.on, false, false⟩ stStale repoB [[pA]]).map (·.map fun e => (e.sigRange, e.ctlRange)) =
+      some [("bytes=0-140".toList, "bytes=141-393".toList)] ∧
+    (lockFile ⟨.off, false, false⟩ St.empty repoB [[pA]]).map (·.map fun e => (e.sigRange, e.ctlRange)) =
+      some [([], "bytes=0-252".toList)] ∧
+    staleSignature ⟨.on, false, false⟩ stStale repoB [pA] = true := by decide
+
+theorem stStale_not_ok : ¬ StOK stStale repoB := by
+  intro h
+  obtain ⟨s, hr, he⟩ := h.1 pA.url (diskEntryOf sA) (by simp [stStale])
+  have hs : s = sAunsigned := by
+    simp only [repoB, ↓reduceIte, Option.some.injEq] at hr
+    exact hr.symm
+  subst hs
+  have : (diskEntryOf sA).sigFile = (diskEntryOf sAunsigned).sigFile := by rw [← he]
+  revert this
+  decide
+
+theorem not_LockOptionFree : ¬ LockOptionFree := by
+  intro h
+  have h1 := h ⟨.on, false, false⟩ stStale repoB [[pA]]
+  have h2 := F09k_witness
+  rw [h1] at h2
+  have := h2.1.symm.trans h2.2.1
+  revert this
+  decide
 
 end Apko.C09.Glue
